@@ -7,12 +7,14 @@ import (
 	"math/rand"
 	"regexp"
 	"sort"
+	"strconv"
 	"strings"
 	"time"
 
 	storetypes "cosmossdk.io/store/types"
 	tmbytes "github.com/cometbft/cometbft/libs/bytes"
 	sdk "github.com/cosmos/cosmos-sdk/types"
+	banktypes "github.com/cosmos/cosmos-sdk/x/bank/types"
 
 	"verif/harness/chain"
 	"verif/harness/cmd/internal/svcslice"
@@ -34,6 +36,8 @@ func main() { drv.Main("oracle", oracleDriver) }
 //	service    "price" (permissive schemas), answers {"header":{},"body":{"last":<decimal>}}
 const (
 	svcName   = "price"
+	svcName2  = "price2"
+	pairFeed  = "btc-stake"
 	valuePath = "last"
 	feedInput = `{"header":{},"body":{}}`
 )
@@ -103,9 +107,7 @@ func newOraEnv(fl *drv.Flags) *oraEnv {
 		accts[p] = fmt.Sprintf("%d%s", 40, svcslice.Denom)
 	}
 	clock := fl.CfgInt("clock", 0) == 1
-	if clock {
-		accts[e.users[0]] += ",100btc" // a price denom must have supply
-	}
+	accts[e.users[0]] += ",100btc" // a price denom must have supply
 	opts := chain.Options{
 		Accounts: accts,
 		MutateGenesis: func(c *chain.Chain, gs simapp.GenesisState) {
@@ -114,11 +116,13 @@ func newOraEnv(fl *drv.Flags) *oraEnv {
 					Name: svcName, Description: "price feed", Author: c.Accts[e.provs[0]].Addr.String(),
 					AuthorDescription: "verif", Schemas: `{"input":{"type":"object"},"output":{"type":"object"}}`,
 				}}}
-			if clock {
-				// the oracle's own module service (exchange rates), as the e2e suites set it up
-				so.Definitions = append(so.Definitions, servicetypes.GenOraclePriceSvcDefinition())
-				so.Bindings = append(so.Bindings, servicetypes.GenOraclePriceSvcBinding(svcslice.Denom))
-			}
+			// the oracle's own module service (exchange rates), as the e2e suites set it
+			// up, and a second service that providers bind at a price in btc
+			so.Definitions = append(so.Definitions, servicetypes.GenOraclePriceSvcDefinition(),
+				servicetypes.ServiceDefinition{Name: svcName2, Description: "priced in btc",
+					Author: c.Accts[e.provs[0]].Addr.String(), AuthorDescription: "verif",
+					Schemas: `{"input":{"type":"object"},"output":{"type":"object"}}`})
+			so.Bindings = append(so.Bindings, servicetypes.GenOraclePriceSvcBinding(svcslice.Denom))
 			svcslice.MutateGenesis(c, gs, so)
 		},
 	}
@@ -132,6 +136,7 @@ func newOraEnv(fl *drv.Flags) *oraEnv {
 	e.c = chain.New(opts)
 	c := e.c
 	e.svc = svcslice.NewEnv(c, svcName, e.provs)
+	e.svc.Names[servicetypes.OraclePriceServiceProvider.String()] = "oraclep"
 	e.svc.RenderOutput = func(output string) (string, int64) {
 		var o struct {
 			Body map[string]json.RawMessage `json:"body"`
@@ -140,6 +145,9 @@ func newOraEnv(fl *drv.Flags) *oraEnv {
 			return "nan", 0
 		}
 		raw := strings.Trim(string(o.Body[valuePath]), `"`)
+		if r, ok := o.Body[servicetypes.OraclePriceValueJSONPath]; ok {
+			raw = strings.Trim(string(r), `"`) // an answer of the oracle-price module service
+		}
 		if v, ok := unitsOf(raw); ok {
 			return "val", v
 		}
@@ -242,6 +250,16 @@ func (e *oraEnv) project(ctx sdk.Context) any {
 			gvBad++
 		}
 	}
+	// bindings of the btc-priced service
+	xbind := chain.M{}
+	for _, p := range e.provs {
+		if b, found := c.K.Service.GetServiceBinding(ctx, svcName2, c.Accts[p].Addr); found {
+			pr := c.K.Service.GetPricing(ctx, svcName2, c.Accts[p].Addr)
+			price, _ := chain.Small(pr.Price.AmountOf("btc"))
+			dep, _ := chain.Small(b.Deposit.AmountOf(svcslice.Denom))
+			xbind[p] = chain.M{"price": price, "deposit": dep}
+		}
+	}
 	h := ctx.BlockHeight()
 	inb := true
 	if !ctx.IsZero() && ctx.BlockHeight() == c.Height {
@@ -254,14 +272,14 @@ func (e *oraEnv) project(ctx sdk.Context) any {
 		"ctx": ctxs, "bind": bind, "earned": earned, "nctx": e.svc.NCtx,
 		"bal":    e.svc.Balances(ctx, e.accounts()),
 		"params": chain.M{"timeout": e.maxTO, "taxNum": e.taxNum, "taxDen": e.taxDen},
-		"qBad":   qBad, "gvBad": gvBad, "fmtBad": fmtBad,
+		"xbind": xbind, "qBad": qBad, "gvBad": gvBad, "fmtBad": fmtBad,
 	}
 }
 
 func oraEvent(name, who, feed string) chain.M {
 	return chain.M{"name": name, "who": who, "feed": feed, "agg": "", "lh": int64(0), "provs": []any{}, "thr": int64(0),
 		"cap": int64(0), "timeout": int64(0), "freq": int64(0), "kind": "", "x": int64(0), "dt": int64(0),
-		"rank": int64(0), "aggs": chain.M{}, "ok": true, "panic": false, "halt": false}
+		"rank": int64(0), "aggs": chain.M{}, "code": int64(0), "ok": true, "panic": false, "halt": false}
 }
 
 func strList(m chain.M, k string) []any {
@@ -329,6 +347,21 @@ func (e *oraEnv) msgOf(ev chain.M) sdk.Msg {
 			Timeout: chain.Num(ev, "timeout"), ServiceFeeCap: capCoins(chain.Num(ev, "cap")),
 			RepeatedFrequency: uint64(chain.Num(ev, "freq")), ResponseThreshold: uint32(chain.Num(ev, "thr")),
 			Creator: a.Addr.String()}
+	case "CallPrice":
+		return &servicetypes.MsgCallService{
+			ServiceName: servicetypes.OraclePriceServiceName, Providers: []string{servicetypes.OraclePriceServiceProvider.String()},
+			Consumer: a.Addr.String(), Input: fmt.Sprintf(`{"header":{},"body":{"pair":"%s"}}`, feed),
+			ServiceFeeCap: capCoins(chain.Num(ev, "cap")), Timeout: 1}
+	case "BindX":
+		return &servicetypes.MsgBindService{ServiceName: svcName2, Provider: a.Addr.String(), Owner: a.Addr.String(),
+			Deposit: capCoins(chain.Num(ev, "cap")), Pricing: fmt.Sprintf(`{"price":"%dbtc"}`, chain.Num(ev, "x")),
+			QoS: 1, Options: "{}"}
+	case "Send":
+		to, ok := c.Accts[feed]
+		if !ok {
+			return nil
+		}
+		return banktypes.NewMsgSend(a.Addr, to.Addr, sdk.NewCoins(sdk.NewInt64Coin(svcslice.Denom, chain.Num(ev, "x"))))
 	case "SvcDirect":
 		// the sender addresses the feed's request context in the service module directly
 		cid := strings.Repeat("00", 40)
@@ -428,6 +461,14 @@ func (e *oraEnv) runBlock(begin chain.M, pending []chain.M, w *chain.TraceWriter
 					}
 				}
 			}
+		case "CallPrice":
+			if r.OK {
+				name := fmt.Sprintf("c%d", st["nctx"].(int64))
+				if cx, ok := st["ctx"].(chain.M)[name].(chain.M); ok {
+					ev["rank"] = cx["rank"]
+				}
+				ev["code"] = e.resultCode(name)
+			}
 		case "Respond":
 			ev["aggs"] = aggsOf(e.last, st)
 		}
@@ -440,6 +481,25 @@ func (e *oraEnv) runBlock(begin chain.M, pending []chain.M, w *chain.TraceWriter
 	w.Write(end, es)
 	e.last = es
 	return true
+}
+
+// resultCode: the result code the module service stored for the (only) request
+// of a CallPrice context (read from the committed state; nothing cleans it up).
+func (e *oraEnv) resultCode(cname string) int64 {
+	ctx := e.c.Ctx()
+	// the module-service request is stored under batch counter 1 (the context itself says 0)
+	for _, rq := range e.svc.RequestsAt(ctx, cname, 1) {
+		if resp, found := e.c.K.Service.GetResponse(ctx, rq.ID); found {
+			var res struct {
+				Code json.RawMessage `json:"code"`
+			}
+			if json.Unmarshal([]byte(resp.Result), &res) == nil {
+				n, _ := strconv.ParseInt(strings.Trim(string(res.Code), `"`), 10, 64)
+				return n
+			}
+		}
+	}
+	return -1
 }
 
 func (e *oraEnv) start(w *chain.TraceWriter) {
@@ -565,11 +625,14 @@ func (e *oraEnv) randProvs(rng *rand.Rand) []any {
 func oraRandom(fl *drv.Flags, rng *rand.Rand, w *chain.TraceWriter) {
 	e := newOraEnv(fl)
 	e.start(w)
-	names := []string{"fa", "fb", "fc"}
+	names := []string{pairFeed, "fb", "fc"}
 	aggs := []string{"max", "min", "avg"}
 	for b := 0; b < fl.Len; b++ {
 		begin := oraEvent("BeginBlock", "", "")
 		begin["dt"] = int64(1 + rng.Intn(9))
+		if rng.Intn(7) == 0 {
+			begin["dt"] = int64(120 + rng.Intn(250)) // values age towards / past the five-minute limit
+		}
 		var pending []chain.M
 		feeds := e.last["feeds"].(chain.M)
 		fnames := chain.SortedKeys(feeds)
@@ -606,6 +669,27 @@ func oraRandom(fl *drv.Flags, rng *rand.Rand, w *chain.TraceWriter) {
 					ev["x"] = x
 				}
 				pending = append(pending, ev)
+			}
+		}
+		// the exchange-rate module service, btc-priced bindings, plain sends
+		for j := rng.Intn(3); j > 0; j-- {
+			switch rng.Intn(6) {
+			case 0, 1, 2:
+				ev := oraEvent("CallPrice", pick(rng, e.users), pick(rng, []string{pairFeed, pairFeed, "fb", "nofeed"}))
+				ev["cap"] = int64(rng.Intn(3))
+				pending = append(pending, ev)
+			case 3, 4:
+				ev := oraEvent("BindX", pick(rng, e.provs), "")
+				ev["x"] = int64(1 + rng.Intn(5))
+				ev["cap"] = int64(1 + rng.Intn(12))
+				pending = append(pending, ev)
+			default:
+				from := pick(rng, e.users)
+				ev := oraEvent("Send", from, pick(rng, e.users))
+				ev["x"] = int64(5 + rng.Intn(30))
+				if chain.Str(ev, "feed") != from {
+					pending = append(pending, ev)
+				}
 			}
 		}
 		// feed management
